@@ -481,6 +481,21 @@ func (g *gen) paragraph(lines bool) *blk {
 	if k := b.inl[0].k; k == iAutolink || k == iRaw {
 		b.inl = append([]*inl{g.word(), {k: iSpace}}, b.inl...)
 	}
+	if !g.no("para:equals-first") && g.r.Intn(30) == 0 {
+		// A paragraph may start with what would be a setext underline if text preceded it:
+		// after a definition, a heading, a break or a blank line it is plain text
+		// ("[foo]: /url" / "===" is a definition and the paragraph "===").
+		eq := &inl{k: iWord, s: []string{"===", "=", "== =="}[g.r.Intn(3)]}
+		switch {
+		case lines && !g.oneLine && g.r.Bool():
+			b.inl = append([]*inl{eq, {k: iSoft}}, b.inl...) // alone on the first line
+		case g.r.Bool():
+			b.inl = []*inl{eq} // the whole paragraph
+		default:
+			b.inl = append([]*inl{eq, {k: iSpace}}, b.inl...)
+		}
+		g.f("para:equals-first")
+	}
 	return b
 }
 
@@ -552,6 +567,11 @@ func (g *gen) block1(depth int, inListItemFirst bool, afterPara bool) *blk {
 		g.oneLine = true
 		b.inl = g.inlineSeq(g.r.Range(1, 3), 1, false, false)
 		g.oneLine = false
+		if !g.no("atx:number-first") && g.r.Intn(12) == 0 {
+			// heading text that would be a list marker at the start of a line: "# 1. Scope"
+			b.inl = append([]*inl{{k: iWord, s: []string{"1.", "2)", "10.", "123456789."}[g.r.Intn(4)]}, {k: iSpace}}, b.inl...)
+			g.f("atx:number-first")
+		}
 		if !g.no("atx:empty") && g.r.Intn(10) == 0 {
 			b.inl = nil // "#", "## ##": a heading without content (what was generated for it is plain inline content, nothing refers to it)
 			g.f("atx:empty")
